@@ -219,3 +219,33 @@ Definition in_class (U : stamp → option lww) (K : N) (v : rvalue) : Prop :=
 Definition fold_merge (l : list rvalue) : option rvalue :=
   match l with [] => None | x :: xs => Some (fold_left rv_merge xs x) end.
 Definition same_set (l1 l2 : list rvalue) : Prop := ∀ x, In x l1 ↔ In x l2.
+
+(* ---------- crash and restart of a node ---------- *)
+(* A node that crashes loses its executor, its replication state and its clock; on restart it
+   is rebuilt from what it had persisted, i.e. the deltas it emitted itself (the WAL replay of
+   server_persistent.rs: ReplicatedShardedState::apply_recovered_state(None, deltas) feeds them
+   through apply_remote_deltas, exactly like deliveries).  What it had received from others
+   comes back through ordinary deliveries (gossip, anti-entropy). *)
+Inductive rcev :=
+| RStep (e : cev)
+| RRestart (i : nat).
+
+Definition own_deliveries (i : nat) (log : list (nat * list N * rvalue)) : list cev :=
+  omap (λ x, if bool_decide (x.1.1 = i) then Some (CDeliver i x.1.2 x.2) else None) log.
+
+Definition rstep (c : list node) (log : list (nat * list N * rvalue)) (e : rcev)
+  : list node * list (nat * list N * rvalue) :=
+  match e with
+  | RStep e => cstep c log e
+  | RRestart i =>
+      match c !! i with
+      | Some _ => crun (<[ i := node_init (N.of_nat (S i)) ]> c) log (own_deliveries i log)
+      | None => (c, log)
+      end
+  end.
+
+Fixpoint rrun (c : list node) (log : list (nat * list N * rvalue)) (evs : list rcev) :=
+  match evs with
+  | [] => (c, log)
+  | e :: r => let '(c1, l1) := rstep c log e in rrun c1 l1 r
+  end.
